@@ -16,6 +16,16 @@ mod dummy;
 
 const W_TRIV: &[u8] = include_bytes!("/repo/packages/axelar-soroban-std/src/interfaces/testdata/contract_trivial_migration.wasm");
 const W_DUMMY: &[u8] = include_bytes!("/repo/contracts/upgrader/tests/testdata/dummy.wasm");
+/// Harness fixture "Fnover": a minimal hand-assembled Soroban module (protocol 22) whose only export is
+/// `migrate(x) -> void` - new code that has a migration but NO `version` entry point:
+///   (module (type (func (param i64) (result i64))) (func (type 0) i64.const 2) (export "migrate" (func 0))
+///           (@custom "contractenvmetav0" "\00\00\00\00\00\00\00\16\00\00\00\00"))
+const W_NOVER: &[u8] = &[
+    0x00, 0x61, 0x73, 0x6d, 0x01, 0x00, 0x00, 0x00, 0x01, 0x06, 0x01, 0x60, 0x01, 0x7e, 0x01, 0x7e, 0x03, 0x02, 0x01, 0x00, 0x07, 0x0b,
+    0x01, 0x07, b'm', b'i', b'g', b'r', b'a', b't', b'e', 0x00, 0x00, 0x0a, 0x06, 0x01, 0x04, 0x00, 0x42, 0x02, 0x0b, 0x00, 0x1e, 0x11,
+    b'c', b'o', b'n', b't', b'r', b'a', b'c', b't', b'e', b'n', b'v', b'm', b'e', b't', b'a', b'v', b'0', 0x00, 0x00, 0x00, 0x00, 0x00,
+    0x00, 0x00, 0x16, 0x00, 0x00, 0x00, 0x00,
+];
 
 #[contracttype]
 pub enum DataKey {
@@ -33,8 +43,7 @@ pub struct UpgradeBinder {
 
 impl UpgradeBinder {
     pub fn new(inst: &J, init: &J) -> UpgradeBinder {
-        let mut cx = Ctx::new();
-        cx.ledger_step = 5;
+        let mut cx = Ctx::new_aging(5);
         let env = cx.env.clone();
         let kind = jstr(inst, "Target");
         let owner = cx.addr(&jstr(init, "owner"));
@@ -74,6 +83,7 @@ impl UpgradeBinder {
         match f {
             "Ftriv" => self.h_triv.clone(),
             "Fdummy" => self.h_dummy.clone(),
+            "Fnover" => self.cx.env.deployer().upload_contract_wasm(W_NOVER),
             x => panic!("fixture {x}"),
         }
     }
@@ -99,6 +109,7 @@ impl UpgradeBinder {
     }
 
     pub fn exec(&mut self, act: &J) -> Obs {
+        self.cx.set_argdrop(act);
         let env = self.cx.env.clone();
         let name = jstr(act, "name");
         let target = self.target.clone();
